@@ -219,6 +219,8 @@ type State struct {
 	ghost    map[string]Value
 
 	violation *Violation
+	known     map[*Term]bool
+	knownHits int
 	instrBase int      // instructions executed by ancestors (for the per-path budget)
 	stepStart int      // len(trace) when the current scheduler iteration began
 	restart   bool     // first iteration of a forked state: the step is being re-executed
@@ -369,6 +371,26 @@ func (st *State) addPC(t *Term) {
 		return
 	}
 	st.pc = append(st.pc, t)
+	// remember the truth value of the asserted condition (and of its conjuncts): the same hash-consed condition is
+	// often branched on again later on the path (repeated key comparisons) and is then decided without a query
+	st.noteKnown(t, true)
+}
+
+func (st *State) noteKnown(t *Term, val bool) {
+	if st.known == nil {
+		st.known = map[*Term]bool{}
+	}
+	st.known[t] = val
+	switch {
+	case t.Op == OpBNot:
+		st.noteKnown(t.A[0], !val)
+	case t.Op == OpBAnd && val:
+		st.noteKnown(t.A[0], true)
+		st.noteKnown(t.A[1], true)
+	case t.Op == OpBOr && !val:
+		st.noteKnown(t.A[0], false)
+		st.noteKnown(t.A[1], false)
+	}
 }
 
 func (st *State) syncSolver() {
@@ -431,6 +453,11 @@ func (st *State) evalModel(t *Term) (uint64, bool) {
 func (st *State) branch(cond *Term) bool {
 	if cond.IsConst() {
 		return cond.C == 1
+	}
+	if v, ok := st.known[cond]; ok {
+		// already implied syntactically by the path condition: no decision, no query (deterministic on replay)
+		st.knownHits++
+		return v
 	}
 	if st.pos < len(st.prefix) {
 		d := st.prefix[st.pos]
